@@ -317,8 +317,8 @@ Proof.
       apply single_nth in Hnth. destruct Hnth as [-> ->]. simpl in Hph. subst p.
       destruct Hx as (Hlb & Hbe).
       unfold live, hpart, stream, slice_at, set_ph in *; simpl. rewrite ?Hhd, Hg. simpl. tr_simpl.
-      repeat split; fin.
-      exists HRunning. repeat split; fin. rewrite Hbe. reflexivity. }
+      refine (conj Hret (conj Hne (conj Hwc (conj Hwn (conj Hcat (conj Hfirst (conj _ Hw))))))).
+      exists HRunning. repeat split; fin. }
     destruct (phase s) eqn:Hp; try (apply Hlive; exact HI).
     + destruct HI as (_ & _ & _ & _ & Hg & _). rewrite Hg in Hnth. destruct i; discriminate.
     + destruct HI as (Hg & _). rewrite Hg in Hnth. destruct i; discriminate.
@@ -337,10 +337,263 @@ Proof.
       apply single_nth in Hnth. destruct Hnth as [-> ->]. simpl in Hph. subst p.
       destruct Hx as (Hlb & Hbe).
       unfold live, hpart, stream, slice_at, set_ph in *; simpl. rewrite ?Hhd, Hg. simpl. tr_simpl.
-      repeat split; fin.
+      refine (conj Hret (conj Hne (conj Hwc (conj Hwn (conj Hcat (conj Hfirst (conj _ Hw))))))).
       exists HSending. repeat split; fin. }
     destruct (phase s) eqn:Hp; try (apply Hlive; exact HI).
     + destruct HI as (_ & _ & _ & _ & Hg & _). rewrite Hg in Hnth. destruct i; discriminate.
     + destruct HI as (Hg & _). rewrite Hg in Hnth. destruct i; discriminate.
     + destruct HI as (_ & _ & _ & _ & Hg & _). rewrite Hg in Hnth. destruct i; discriminate.
 Qed.
+
+Lemma run_inv ls : forall s tr0 s' tr, Inv s tr0 -> run s ls = Some (s', tr) -> Inv s' (tr0 ++ tr).
+Proof.
+  induction ls as [|l ls IH]; intros s tr0 s' tr HI Hr; simpl in Hr.
+  - inversion Hr; subst. rewrite app_nil_r. exact HI.
+  - destruct (step s l) as [[s1 evs]|] eqn:Hs; [|discriminate].
+    destruct (run s1 ls) as [[s2 tr2]|] eqn:Hr2; [|discriminate].
+    inversion Hr; subst. rewrite app_assoc. eapply IH; [|exact Hr2]. eapply step_inv; eassumption.
+Qed.
+
+Lemma inv_run ls s tr : run init ls = Some (s, tr) -> Inv s tr.
+Proof. intros H. apply (run_inv ls init [] s tr inv_init H). Qed.
+
+(* ---------------------------------------------------------------- consequences of the invariant *)
+
+Lemma inv_cases s tr :
+  Inv s tr -> fresh s tr \/ live s tr \/ finished s tr.
+Proof. unfold Inv. destruct (phase s); auto. Qed.
+
+Lemma live_hcases s tr :
+  live s tr ->
+  (launches tr = begins tr /\ (begins tr = ends tr \/ exists x, begins tr = ends tr ++ [x])) \/
+  (exists x, launches tr = begins tr ++ [x] /\ begins tr = ends tr).
+Proof.
+  intros (_ & _ & _ & _ & _ & _ & Hh & _). unfold hpart in Hh. destruct (handling s).
+  - destruct Hh as ([| |] & _ & _ & Hx).
+    + right. eexists. exact Hx.
+    + left. destruct Hx as [H1 H2]. split; [exact H1|]. right. eexists. exact H2.
+    + left. destruct Hx as [H1 H2]. split; [exact H1|]. left. exact H2.
+  - left. destruct Hh as (_ & _ & H1 & H2 & _). split; [exact H1|]. left. exact H2.
+Qed.
+
+Lemma exactly_once_inv s tr : Inv s tr -> exists pending, concat (begins tr) ++ pending = stream tr.
+Proof.
+  intros HI. destruct (inv_cases _ _ HI) as [HF|[HL|HF]].
+  - destruct HF as (_ & _ & _ & _ & _ & _ & Hb & _ & _ & Hr & Hp & _).
+    exists []. unfold stream. rewrite Hb, Hr, Hp. reflexivity.
+  - pose proof HL as (_ & _ & _ & _ & Hcat & _).
+    destruct (live_hcases _ _ HL) as [[H1 _]|[x [H1 _]]].
+    + rewrite <- H1. eexists. exact Hcat.
+    + rewrite H1, concat_snoc, <- app_assoc in Hcat. eexists. exact Hcat.
+  - destruct HF as (_ & _ & _ & H1 & _ & _ & [pend Hp] & _). rewrite <- H1. exists pend. exact Hp.
+Qed.
+
+Lemma idle_inv s tr :
+  Inv s tr -> returned tr = false -> dones tr = length (launches tr) ->
+  concat (ends tr) = stream tr /\ hgs s = [].
+Proof.
+  intros HI Hret Hd. destruct (inv_cases _ _ HI) as [HF|[HL|HF]].
+  - destruct HF as (_ & _ & _ & _ & Hg & _ & _ & He & _ & Hr & Hp & _).
+    unfold stream. rewrite He, Hr, Hp. split; [reflexivity|exact Hg].
+  - destruct HL as (_ & _ & _ & _ & Hcat & _ & Hh & _). unfold hpart in Hh. destruct (handling s).
+    + destruct Hh as (p & _ & Hd' & _). lia.
+    + destruct Hh as (Hg & Hz & H1 & H2 & _). unfold read in Hcat. rewrite Hz in Hcat. simpl in Hcat.
+      rewrite app_nil_r, H1, H2 in Hcat. split; assumption.
+  - destruct HF as (_ & _ & Hr & _). congruence.
+Qed.
+
+Lemma idle_state_inv s tr :
+  Inv s tr -> phase s = LSelect -> handling s = false ->
+  hgs s = [] /\ read (mem s) (nxt s) = [] /\ concat (ends tr) = stream tr.
+Proof.
+  intros HI Hp Hh. unfold Inv in HI. rewrite Hp in HI.
+  destruct HI as (_ & _ & _ & _ & Hcat & _ & Hx & _). unfold hpart in Hx. rewrite Hh in Hx.
+  destruct Hx as (Hg & Hz & H1 & H2 & _).
+  assert (Hr : read (mem s) (nxt s) = []) by (unfold read; rewrite Hz; reflexivity).
+  rewrite Hr, app_nil_r, H1, H2 in Hcat. auto.
+Qed.
+
+Lemma counts_inv s tr :
+  Inv s tr ->
+  length (hgs s) <= 1 /\
+  length (ends tr) <= length (begins tr) /\ length (begins tr) <= S (length (ends tr)) /\
+  length (begins tr) <= length (launches tr) /\ length (launches tr) <= S (dones tr) /\
+  dones tr <= length (ends tr).
+Proof.
+  intros HI. destruct (inv_cases _ _ HI) as [HF|[HL|HF]].
+  - destruct HF as (_ & _ & _ & _ & Hg & Hl & Hb & He & Hd & _). rewrite Hg, Hl, Hb, He, Hd. simpl. lia.
+  - destruct HL as (_ & _ & _ & _ & _ & _ & Hh & _). unfold hpart in Hh. destruct (handling s).
+    + destruct Hh as (p & Hg & Hd & Hx). rewrite Hg. simpl.
+      destruct p; destruct Hx as [H1 H2]; rewrite H1 in *; rewrite H2 in *;
+        rewrite ?app_length in *; simpl in *; lia.
+    + destruct Hh as (Hg & _ & H1 & H2 & Hd). rewrite Hg, Hd, H1, H2. simpl. lia.
+  - destruct HF as (Hg & _ & _ & H1 & H2 & Hd & _). rewrite Hg, Hd, H1, H2. simpl. lia.
+Qed.
+
+Lemma first_inv s tr :
+  Inv s tr ->
+  (forall b rest, begins tr = b :: rest -> b = prepared tr) /\
+  (forall b rest, launches tr = b :: rest -> b = prepared tr) /\
+  (launches tr = [] -> recvs tr = []).
+Proof.
+  intros HI. destruct (inv_cases _ _ HI) as [HF|[HL|HF]].
+  - destruct HF as (_ & _ & _ & _ & _ & Hl & Hb & _ & _ & Hr & _). rewrite Hl, Hb.
+    repeat split; try discriminate. intros _. exact Hr.
+  - pose proof HL as (_ & _ & _ & _ & _ & [rest0 Hf] & _).
+    assert (H2 : forall b rest, launches tr = b :: rest -> b = prepared tr).
+    { intros b rest H. rewrite Hf in H. inversion H. reflexivity. }
+    repeat split; [|exact H2|rewrite Hf; discriminate].
+    intros b rest Hb. destruct (live_hcases _ _ HL) as [[H1 _]|[x [H1 _]]].
+    + apply (H2 b rest). rewrite H1. exact Hb.
+    + apply (H2 b (rest ++ [x])). rewrite H1, Hb. reflexivity.
+  - destruct HF as (_ & _ & _ & H1 & _ & _ & _ & [rest0 Hf] & _).
+    assert (H2 : forall b rest, launches tr = b :: rest -> b = prepared tr).
+    { intros b rest H. rewrite Hf in H. inversion H. reflexivity. }
+    repeat split; [|exact H2|rewrite Hf; discriminate].
+    intros b rest Hb. apply (H2 b rest). rewrite H1. exact Hb.
+Qed.
+
+Lemma stable_inv s tr : Inv s tr -> ends tr = firstn (length (ends tr)) (begins tr).
+Proof.
+  intros HI.
+  assert (H : begins tr = ends tr \/ exists x, begins tr = ends tr ++ [x]).
+  { destruct (inv_cases _ _ HI) as [HF|[HL|HF]].
+    - destruct HF as (_ & _ & _ & _ & _ & _ & Hb & He & _). left. congruence.
+    - destruct (live_hcases _ _ HL) as [[_ H]|[x [_ H]]]; [exact H|left; exact H].
+    - destruct HF as (_ & _ & _ & _ & H & _). left. exact H. }
+  destruct H as [H|[x H]]; rewrite H.
+  - symmetry. apply firstn_all.
+  - rewrite firstn_app, Nat.sub_diag, firstn_all. simpl. rewrite app_nil_r. reflexivity.
+Qed.
+
+(* the array the loop appends into is never one a live handler goroutine reads *)
+Lemma disjoint_inv s tr g :
+  Inv s tr -> In g (hgs s) -> h_slice g = cur s /\ s_buf (h_slice g) <> s_buf (nxt s).
+Proof.
+  intros HI Hin. destruct (inv_cases _ _ HI) as [HF|[HL|HF]].
+  - destruct HF as (_ & _ & _ & _ & Hg & _). rewrite Hg in Hin. destruct Hin.
+  - destruct HL as (_ & Hne & _ & _ & _ & _ & Hh & _). unfold hpart in Hh. destruct (handling s).
+    + destruct Hh as (p & Hg & _). rewrite Hg in Hin. destruct Hin as [<-|[]]. simpl. auto.
+    + destruct Hh as (Hg & _). rewrite Hg in Hin. destruct Hin.
+  - destruct HF as (Hg & _). rewrite Hg in Hin. destruct Hin.
+Qed.
+
+Lemma shutdown_inv s tr :
+  Inv s tr -> returned tr = true ->
+  hgs s = [] /\ cancelled s = true /\ launches tr = begins tr /\ begins tr = ends tr /\
+  dones tr = length (launches tr) /\ Forall (fun e => e = ECancel) (after_return tr).
+Proof.
+  intros HI Hr. destruct (inv_cases _ _ HI) as [HF|[HL|HF]].
+  - destruct HF as (_ & _ & _ & _ & _ & _ & _ & _ & _ & _ & _ & H). congruence.
+  - destruct HL as (H & _). congruence.
+  - destruct HF as (H1 & H2 & _ & H3 & H4 & H5 & _ & _ & H6). auto 10.
+Qed.
+
+(* a step that launches a handler leaves nothing behind: nextBatch is empty afterwards and all that
+   was delivered so far has been handed to some handler goroutine *)
+Lemma launch_takes_all s tr l s' evs :
+  Inv s tr -> step s l = Some (s', evs) -> launches evs <> [] ->
+  read (mem s') (nxt s') = [] /\ concat (launches (tr ++ evs)) = stream (tr ++ evs).
+Proof.
+  intros HI Hs Hl. pose proof (step_inv _ _ _ _ _ HI Hs) as HI'.
+  assert (Hz : s_len (nxt s') = 0 /\ phase s' = LSelect).
+  { destruct l; simpl in Hs.
+    - destruct (in_phase s LInit) eqn:Hp; [|discriminate]. apply in_phase_true in Hp.
+      unfold Inv in HI. rewrite Hp in HI. destruct HI as (_ & _ & Hn & _).
+      inversion Hs; subst. simpl. rewrite Hn. auto.
+    - destruct (in_phase s LInit); inversion Hs; subst. simpl in Hl. congruence.
+    - inversion Hs; subst. simpl in Hl. congruence.
+    - destruct (in_phase s LSelect) eqn:Hp; [|discriminate]. apply in_phase_true in Hp.
+      destruct (append realloc (mem s) (nxt s) e) as [m n].
+      destruct (handling s); inversion Hs; subst.
+      + simpl in Hl. congruence.
+      + simpl. auto.
+    - destruct (in_phase s LSelect && cancelled s); [|discriminate].
+      destruct (handling s); inversion Hs; subst; simpl in Hl; congruence.
+    - destruct (is_ph s i HSending) eqn:Hi; [|discriminate].
+      destruct (in_phase s LSelect) eqn:Hp.
+      + apply in_phase_true in Hp. simpl in Hs.
+        destruct (Nat.ltb 0 (s_len (nxt s))); inversion Hs; subst; [|simpl in Hl; congruence].
+        simpl. auto.
+      + destruct (in_phase s LWait); inversion Hs; subst. simpl in Hl. congruence.
+    - destruct (is_ph s i HLaunched); inversion Hs; subst. simpl in Hl. congruence.
+    - destruct (is_ph s i HRunning); inversion Hs; subst. simpl in Hl. congruence. }
+  destruct Hz as (Hz & Hp).
+  assert (Hr : read (mem s') (nxt s') = []) by (unfold read; rewrite Hz; reflexivity).
+  split; [exact Hr|].
+  unfold Inv in HI'. rewrite Hp in HI'. destruct HI' as (_ & _ & _ & _ & Hcat & _).
+  rewrite Hr, app_nil_r in Hcat. exact Hcat.
+Qed.
+
+(* ---------------------------------------------------------------- progress (enabledness) *)
+
+Lemma recv_enabled s e r : phase s = LSelect -> step s (LRecv e r) <> None.
+Proof.
+  intros Hp. simpl. unfold in_phase. rewrite Hp.
+  destruct (append r (mem s) (nxt s) e). destruct (handling s); discriminate.
+Qed.
+
+Lemma see_cancel_enabled s : phase s = LSelect -> cancelled s = true -> step s LSeeCancel <> None.
+Proof.
+  intros Hp Hc. simpl. unfold in_phase. rewrite Hp, Hc. simpl. destruct (handling s); discriminate.
+Qed.
+
+(* while the flag is set there is a live handler goroutine, and whatever its stage its next action
+   is enabled; the last of them is the loop's receipt of handlingDone, also in the wait after cancel *)
+Lemma handler_progress s tr :
+  Inv s tr -> (phase s = LSelect \/ phase s = LWait) -> handling s = true ->
+  exists g, hgs s = [g] /\
+    match h_ph g with
+    | HLaunched => step s (LBegin 0) <> None
+    | HRunning => step s (LEnd 0) <> None
+    | HSending => step s (LTakeDone 0) <> None
+    end.
+Proof.
+  intros HI Hp Hh.
+  assert (HL : live s tr) by (unfold Inv in HI; destruct Hp as [Hp|Hp]; rewrite Hp in HI; exact HI).
+  destruct HL as (_ & _ & _ & _ & _ & _ & Hx & _). unfold hpart in Hx. rewrite Hh in Hx.
+  destruct Hx as (p & Hg & _). eexists. split; [exact Hg|]. simpl.
+  destruct p; simpl; unfold is_ph, ph_at; rewrite Hg; simpl; try discriminate.
+  unfold in_phase. destruct Hp as [Hp|Hp]; rewrite Hp; simpl.
+  - destruct (Nat.ltb 0 (s_len (nxt s))); discriminate.
+  - discriminate.
+Qed.
+
+Lemma wait_has_handler s tr : Inv s tr -> phase s = LWait -> handling s = true.
+Proof.
+  intros HI Hp. unfold Inv in HI. rewrite Hp in HI. destruct HI as (_ & _ & _ & _ & _ & _ & _ & Hw).
+  apply Hw. exact Hp.
+Qed.
+
+(* ---------------------------------------------------------------- non-vacuity
+   A concrete schedule: the start-up batch is being handled while three events arrive (the third
+   append reallocates), they are coalesced; the arrays are reused twice; an event arrives while idle;
+   cancellation arrives while the last batch is in flight and Start waits for it. *)
+Definition ex_labels : list label :=
+  [LPrepare [1; 2]; LBegin 0; LRecv 11 false; LRecv 12 false; LEnd 0; LRecv 13 true; LTakeDone 0;
+   LBegin 0; LRecv 14 false; LEnd 0; LTakeDone 0; LBegin 0; LEnd 0; LTakeDone 0;
+   LRecv 15 false; LBegin 0; LCancel; LRecv 16 false; LSeeCancel; LEnd 0; LTakeDone 0].
+
+Example ex_run :
+  exists s tr, run init ex_labels = Some (s, tr) /\
+    begins tr = [[1; 2]; [11; 12; 13]; [14]; [15]] /\ ends tr = begins tr /\
+    stream tr = [1; 2; 11; 12; 13; 14; 15; 16] /\ dones tr = 4 /\ returned tr = true /\ phase s = LRet.
+Proof. eexists. eexists. split; [vm_compute; reflexivity|]. vm_compute. repeat split. Qed.
+
+(* the hypotheses of the idle theorem are satisfiable with a non-trivial history *)
+Example ex_idle :
+  exists s tr, run init (firstn 14 ex_labels) = Some (s, tr) /\
+    returned tr = false /\ dones tr = length (launches tr) /\ phase s = LSelect /\ handling s = false /\
+    concat (ends tr) = [1; 2; 11; 12; 13; 14].
+Proof. eexists. eexists. split; [vm_compute; reflexivity|]. vm_compute. repeat split. Qed.
+
+(* a launching step exists (hypothesis of the coalescing theorem) with two events pending *)
+Example ex_launch :
+  exists s tr s' evs, run init (firstn 6 ex_labels) = Some (s, tr) /\
+    step s (LTakeDone 0) = Some (s', evs) /\ launches evs = [[11; 12; 13]].
+Proof. eexists. eexists. eexists. eexists. split; [vm_compute; reflexivity|]. vm_compute. split; reflexivity. Qed.
+
+(* the wait after cancellation is reachable (hypothesis of the progress theorem) *)
+Example ex_wait :
+  exists s tr, run init (firstn 19 ex_labels) = Some (s, tr) /\ phase s = LWait /\ handling s = true.
+Proof. eexists. eexists. split; [vm_compute; reflexivity|]. vm_compute. split; reflexivity. Qed.
